@@ -64,8 +64,8 @@ Defect(sw, m, t, ctx) ==
   CASE sw = "allow_duplicate_keys" -> HasDupKeys(m)
     [] sw = "allow_dup_if" -> HasFrag(m, "d")
     [] sw = "allow_or_i" -> HasFrag(m, "or_i")
-    [] sw = "allow_multi" -> HasFrag(m, "multi")
-    [] sw = "allow_multi_a" -> HasFrag(m, "multi_a")
+    [] sw = "allow_multi" -> HasFrag(m, "multi") \/ HasFrag(m, "sortedmulti")
+    [] sw = "allow_multi_a" -> HasFrag(m, "multi_a") \/ HasFrag(m, "sortedmulti_a")
     [] sw = "allow_malleability" -> "m" \notin t.fl
     [] sw = "allow_sigless_branch" -> "s" \notin t.fl
     [] sw = "allow_non_b" -> t.b # "B"
